@@ -360,6 +360,13 @@ def install(cobyqa):
                 if seen is None or seen.shape != centre.shape:
                     seen = np.zeros_like(centre)
                 seen = np.maximum(seen, np.maximum(centre, np.where(np.isfinite(xi), np.abs(xi), 0.0)))
+                # the step is a sum of parts (normal, tangential, correction) each as large as the trust-region
+                # radius: their cancellation rounds at eps * radius
+                try:
+                    if ps.framework is not None and kind != "init":
+                        seen = np.maximum(seen, float(ps.framework.radius))
+                except Exception:
+                    pass
                 ps.scale_seen = seen
                 centre = seen
                 with np.errstate(invalid="ignore"):
